@@ -125,3 +125,9 @@ type Description struct {
 	Assumptions []string `json:"assumptions"`
 	FaultKinds  []string `json:"fault_kinds"`
 }
+
+// Explainer is optionally implemented by checks: it tells which open known
+// finding (if any) explains the violation a replay payload reproduces.
+type Explainer interface {
+	Explain(payload json.RawMessage) (string, error)
+}
